@@ -16,7 +16,7 @@ pub(crate) mod verif_kani {
     #[kani::proof]
     #[kani::unwind(50)]
     #[kani::stub(zeroize::optimization_barrier, noop_barrier)]
-    fn drop_wipes_shared_secret() {
+    fn drop_wipes_shared_secret_x25519() {
         let mut mem = Aligned([0u8; 48]);
         let off: usize = kani::any();
         kani::assume(off < 8);
